@@ -243,7 +243,7 @@ TESTS = dict(pair=t_pair, normalized=t_normalized, rescale=t_rescale, roundtrip=
 
 def witness(ctx):
     deep = ctx.deep
-    dn = [(1, 12), (2, 7)] if not deep else [(1, 12), (1, 11), (2, 7), (2, 8), (3, 5), (3, 6)]
+    dn = [(1, 12), (2, 7)] if not deep else [(1, 12), (1, 11), (2, 7), (2, 8), (3, 7), (3, 6)]
     for D, N in dn:
         for p in LINEAR_PAIRS:
             ctx.check("pair", dict(pair=p, D=D, N=N, order=0, seed=ctx.seed))
